@@ -598,6 +598,8 @@ impl<'a, 'tcx> H<'a, 'tcx> {
                 }
                 out.arr_end();
                 out.kbool("rest", m.is_some());
+                // `[first, ..]` ignores the remaining elements, `[first, rest @ ..]` binds them
+                out.kbool("rest_bound", matches!(m, Some(mp) if matches!(mp.kind, P::Binding(..))));
                 out.key("after");
                 out.arr_begin();
                 for s in b.iter() {
